@@ -31,6 +31,8 @@ func (c schedCall) call(text BS) Call {
 		return Call{API: "json", Doc: text, Form: "string"}
 	case "yaml":
 		return Call{API: "yaml", Doc: text, Form: "string"}
+	case "ssnap":
+		return Call{API: "ssnap", Vals: []Val{strVal(string(text))}}
 	}
 	return Call{API: "snap", Vals: []Val{strVal(string(text))}}
 }
@@ -74,6 +76,66 @@ type schedCase struct {
 	Order    []int             `json:"tie_breaks"`
 	// Exact, if set, replaces Preempts (used by the exhaustive enumeration and in replay files)
 	Exact []vsched.Preempt `json:"exact,omitempty"`
+	// FreshDir: nothing exists yet - the snapshot directory lies three missing levels deep (only for scenarios without
+	// pre-existing entries or standalone files)
+	FreshDir bool `json:"fresh_directory,omitempty"`
+}
+
+// ordinals: for every call of the test its ordinal among the calls of its kind (multi-entry calls share the file's
+// ordinal sequence, standalone calls have their own)
+func (t schedTest) ordinals() []int {
+	out := make([]int, len(t.Calls))
+	m, s := 0, 0
+	for i, c := range t.Calls {
+		if c.API == "ssnap" {
+			s++
+			out[i] = s
+		} else {
+			m++
+			out[i] = m
+		}
+	}
+	return out
+}
+
+func (c schedCase) dirSpec() CfgSpec {
+	if c.FreshDir {
+		return CfgSpec{Dir: "new/deep/er/snaps", Filename: "f"}
+	}
+	return CfgSpec{Dir: "snaps", Filename: "f"}
+}
+
+// standaloneFiles: relative path -> content, before (initial=true) or after the run
+func (c schedCase) standaloneFiles(initial bool) map[string]string {
+	out := map[string]string{}
+	solo := c.dirSpec()
+	solo.Filename = ""
+	for _, t := range c.Tests {
+		ord := t.ordinals()
+		for i, call := range t.Calls {
+			if call.API != "ssnap" {
+				continue
+			}
+			p := solo.standalonePath(t.Name, ord[i], false)
+			switch call.Kind {
+			case "match":
+				out[p] = string(call.Val)
+			case "mismatch":
+				out[p] = string(call.Old)
+			case "update":
+				if initial {
+					out[p] = string(call.Old)
+				} else {
+					out[p] = string(call.Val)
+				}
+			case "create":
+				if !initial {
+					out[p] = string(call.Val)
+				}
+			}
+		}
+	}
+	return out
 }
 
 // values larger than the usual buffer sizes (4096, 8192): an entry that a buffered writer would emit in several writes
@@ -117,12 +179,16 @@ func siteInteresting(site string) bool {
 func (c schedCase) initialEntries() []Entry {
 	es := append([]Entry{}, c.Foreign...)
 	for _, t := range c.Tests {
+		ord := t.ordinals()
 		for k, call := range t.Calls {
+			if call.API == "ssnap" {
+				continue
+			}
 			switch call.Kind {
 			case "match":
-				es = append(es, Entry{ID: BS(entryID(t.Name, k+1)), Body: schedBody(call, call.Val)})
+				es = append(es, Entry{ID: BS(entryID(t.Name, ord[k])), Body: schedBody(call, call.Val)})
 			case "mismatch", "update":
-				es = append(es, Entry{ID: BS(entryID(t.Name, k+1)), Body: schedBody(call, call.Old)})
+				es = append(es, Entry{ID: BS(entryID(t.Name, ord[k])), Body: schedBody(call, call.Old)})
 			}
 		}
 	}
@@ -145,6 +211,7 @@ func (c schedCase) initialEntries() []Entry {
 type schedObs struct {
 	outcomes [][]string
 	final    string
+	solo     map[string]string // every other file below the scratch root: relative path -> content
 	sess     *vsched.Session
 }
 
@@ -152,14 +219,21 @@ type schedObs struct {
 func runSched(c schedCase, pre []vsched.Preempt, record bool) (schedObs, error) {
 	root := scratchDir()
 	defer os.RemoveAll(root)
-	spec := CfgSpec{Dir: "snaps", Filename: "f"}
+	spec := c.dirSpec()
 	file := filepath.Join(root, spec.multiPath())
-	os.MkdirAll(filepath.Dir(file), 0o755)
-	os.WriteFile(file, []byte(refRender(c.initialEntries())), 0o644)
+	if !c.FreshDir {
+		os.MkdirAll(filepath.Dir(file), 0o755)
+		os.WriteFile(file, []byte(refRender(c.initialEntries())), 0o644)
+		for p, data := range c.standaloneFiles(true) {
+			os.WriteFile(filepath.Join(root, p), []byte(data), 0o644)
+		}
+	}
 	newProcess(Mode{})
 	upd, noUpd := spec, spec
 	upd.Update, noUpd.Update = boolp(true), boolp(false)
 	cfgDefault, cfgUpd, cfgNo := spec.build(root), upd.build(root), noUpd.build(root)
+	soloOf := func(s CfgSpec) *Config { s.Filename = ""; return s.build(root) }
+	soloDefault, soloUpd, soloNo := soloOf(spec), soloOf(upd), soloOf(noUpd)
 	obs := schedObs{outcomes: make([][]string, len(c.Tests))}
 	tasks := make([]func(), len(c.Tests))
 	for i, t := range c.Tests {
@@ -174,7 +248,12 @@ func runSched(c schedCase, pre []vsched.Preempt, record bool) (schedObs, error) 
 				case "mismatch":
 					cfg = cfgNo
 				}
+				if call.API == "ssnap" {
+					cfg = map[*Config]*Config{cfgDefault: soloDefault, cfgUpd: soloUpd, cfgNo: soloNo}[cfg]
+				}
 				switch call.API {
+				case "ssnap":
+					cfg.MatchStandaloneSnapshot(ft, string(call.Val))
 				case "json":
 					cfg.MatchJSON(ft, string(call.Val))
 				case "yaml":
@@ -203,6 +282,12 @@ func runSched(c schedCase, pre []vsched.Preempt, record bool) (schedObs, error) 
 	}
 	obs.sess = vsched.Run(tasks, pre, c.Order, record)
 	obs.final = readFile(file)
+	obs.solo = map[string]string{}
+	for p, f := range snapDir(root) {
+		if !f.IsDir && p != spec.multiPath() {
+			obs.solo[p] = f.Data
+		}
+	}
 	return obs, nil
 }
 
@@ -237,14 +322,34 @@ func judgeSched(c schedCase, obs schedObs) error {
 	want := c.initialEntries()
 	created := map[string]string{}
 	for _, t := range c.Tests {
+		ord := t.ordinals()
 		for k, call := range t.Calls {
-			id := entryID(t.Name, k+1)
+			if call.API == "ssnap" {
+				continue
+			}
+			id := entryID(t.Name, ord[k])
 			switch call.Kind {
 			case "update":
 				want[findEntry(want, id)].Body = schedBody(call, call.Val)
 			case "create":
 				created[id] = string(schedBody(call, call.Val))
 			}
+		}
+	}
+	// standalone files: the k-th standalone call of a test owns file k, whatever the other tests do meanwhile
+	wantSolo := c.standaloneFiles(false)
+	for p, data := range wantSolo {
+		got, ok := obs.solo[p]
+		if !ok {
+			return fmt.Errorf("standalone file %q is missing after the run; files: %v; schedule: %s", p, keysOfStrMap(obs.solo), trace)
+		}
+		if got != data {
+			return fmt.Errorf("standalone file %q holds %q, a serial execution leaves %q; schedule: %s", p, clip(got), clip(data), trace)
+		}
+	}
+	for p := range obs.solo {
+		if _, ok := wantSolo[p]; !ok {
+			return fmt.Errorf("unexpected file %q after the run (expected standalone files: %v); schedule: %s", p, keysOfStrMap(wantSolo), trace)
 		}
 	}
 	if len(es) < len(want) {
@@ -272,6 +377,15 @@ func judgeSched(c schedCase, obs schedObs) error {
 		}
 	}
 	return nil
+}
+
+func keysOfStrMap(m map[string]string) []string {
+	var out []string
+	for k := range m {
+		out = append(out, k)
+	}
+	sort.Strings(out)
+	return out
 }
 
 // concretize maps abstract preemptions to exact (task, yield number) pairs using a dry run.
@@ -348,7 +462,7 @@ func genSchedScenario(t *rapid.T) schedCase {
 			case shape == 2:
 				kind = "create"
 			}
-			api := rapid.SampledFrom([]string{"", "", "", "json", "yaml"}).Draw(t, "api")
+			api := rapid.SampledFrom([]string{"", "", "", "json", "yaml", "ssnap", "ssnap"}).Draw(t, "api")
 			pool := vals
 			switch api {
 			case "json":
@@ -370,6 +484,9 @@ func genSchedScenario(t *rapid.T) schedCase {
 		c.Tests = append(c.Tests, st)
 	}
 	c.Shuffle = rapid.Permutation(indices(12)).Draw(t, "shuffle")
+	if len(c.initialEntries()) == 0 && len(c.standaloneFiles(true)) == 0 {
+		c.FreshDir = rapid.Bool().Draw(t, "freshdir")
+	}
 	return c
 }
 
@@ -434,6 +551,14 @@ var exhaustiveScenarios = []schedCase{
 	{Tests: []schedTest{
 		{Name: "TestA", Calls: []schedCall{{Kind: "update", Val: "new", Old: "old"}}},
 		{Name: "TestB", Calls: []schedCall{{Kind: "match", Val: "same"}, {Kind: "mismatch", Val: "x", Old: "y"}}}}},
+	// nothing exists yet: two creators and a snapshot directory three missing levels deep
+	{FreshDir: true, Tests: []schedTest{
+		{Name: "TestA", Calls: []schedCall{{Kind: "create", Val: "a1"}}},
+		{Name: "TestB", Calls: []schedCall{{Kind: "create", Val: "b1"}, {Kind: "create", API: "ssnap", Val: "b standalone"}}}}},
+	// standalone snapshots of two live tests whose names differ in case only: each owns its files 1 and 2
+	{Tests: []schedTest{
+		{Name: "TestA/get", Calls: []schedCall{{Kind: "create", API: "ssnap", Val: "v1"}, {Kind: "update", API: "ssnap", Val: "v2", Old: "old"}}},
+		{Name: "TestA/GET", Calls: []schedCall{{Kind: "match", API: "ssnap", Val: "w1"}, {Kind: "create", API: "ssnap", Val: "w2"}}}}},
 }
 
 // scenarios enumerated with every single preemption (both tiers) and every pair (thorough): entries beyond buffer sizes
@@ -616,4 +741,66 @@ func indexOf(ss []string, s string) int {
 // serial prediction - every call addresses its own slot and no slot is lost, duplicated or reverted by another test's write.
 func TestC03_ConcurrentSlots(t *testing.T) {
 	prop[schedCase]{property: "C03", gen: genSchedCase, check: checkSched, classify: classifySched}.run(t)
+}
+
+// C19's "the k-th standalone call of a test always maps to file k" while other tests run concurrently: the generated
+// scenarios with every call turned into a standalone call (names from the pool: prefixes, case variants, subtests), and every
+// schedule with <= 2 preemptions at interesting sites of the case-variant scenario.
+func genSchedCaseStandalone(t *rapid.T) schedCase {
+	c := genSchedCase(t)
+	for ti := range c.Tests {
+		for ci := range c.Tests[ti].Calls {
+			call := &c.Tests[ti].Calls[ci]
+			if call.API != "" && call.API != "ssnap" {
+				continue // JSON / YAML documents stay multi-entry calls next to the standalone ones
+			}
+			call.API = "ssnap"
+		}
+	}
+	c.FreshDir = c.FreshDir && len(c.initialEntries()) == 0 && len(c.standaloneFiles(true)) == 0
+	return c
+}
+
+func TestC19_ConcurrentStandalone(t *testing.T) {
+	prop[schedCase]{property: "C19", gen: genSchedCaseStandalone, check: checkSched, classify: classifySched}.run(t)
+}
+
+func TestC19_ExhaustiveCaseNames(t *testing.T) {
+	nshards, _ := strconv.Atoi(getenv("VERIF_NSHARDS", "1"))
+	shard, _ := strconv.Atoi(getenv("VERIF_SHARD", "0"))
+	base := exhaustiveScenarios[len(exhaustiveScenarios)-1]
+	p := prop[schedCase]{property: "C19", check: checkSched, classify: classifySched}
+	p.enumerate(t, func(yield func(schedCase) bool) {
+		idx := 0
+		for first := range base.Tests {
+			sc := base
+			sc.Order = []int{first}
+			dry, _ := runSched(sc, nil, true)
+			type pos struct{ g, k int }
+			var all []pos
+			for g, sites := range dry.sess.Sites {
+				for k, site := range sites {
+					if tierThorough() || siteInteresting(site) {
+						all = append(all, pos{g, k + 1})
+					}
+				}
+			}
+			for i := -1; i < len(all); i++ {
+				for j := i + 1; j < len(all); j++ {
+					idx++
+					if idx%nshards != shard {
+						continue
+					}
+					c := sc
+					if i >= 0 {
+						c.Exact = append(c.Exact, vsched.Preempt{G: all[i].g, K: all[i].k})
+					}
+					c.Exact = append(c.Exact, vsched.Preempt{G: all[j].g, K: all[j].k})
+					if !yield(c) {
+						return
+					}
+				}
+			}
+		}
+	})
 }
